@@ -43,7 +43,9 @@ META = {
             "CAS and its sequence store). The second alternative is real: C16_ring_empty_with_inflight_push_example shows "
             "pop answering 'empty' after another thread's push has completely returned (failing answers of this queue are "
             "not linearizable in the strict sense; the pool's worker loop polls, so this only delays a task). "
-            "C16_ring_cas_collision_example exhibits two producers colliding on the CAS and one retrying. Assumed in that "
+            "C16_ring_cas_collision_example exhibits two producers colliding on the CAS and one retrying; "
+            "C16_ring_obstruction_free: from every reachable state a thread inside a push/pop that runs alone returns within "
+            "8 own steps (no self-spinning; lock freedom under contention is not stated). Assumed in that "
             "model, not proved: sequentially consistent atomics (the relaxed/acquire/release orders of the code are "
             "outside the model) and unbounded counters (the 2^64 wrap of size_t needs the power-of-two capacity the "
             "constructor enforces). The sequential ring model is compared with the real MPMCBoundedQueue "
